@@ -910,6 +910,28 @@ pub fn apply_fault(t: &mut SupplyTrace, plan: &Plan, f: F, r: &mut Rng, prefer_s
                 t.labels.push(fname(f).to_string());
                 return true;
             }
+            // a string that holds a character with an escape spelling (TAB, LF, CR, quote, backslash, U+0001) or
+            // such a spelling: the one swapped for the other is another string — a canonical writer that escapes
+            // too little gives both the same bytes
+            let escapable: Vec<(String, String)> = ls
+                .iter()
+                .filter_map(|(p, val)| {
+                    let s = val.as_str()?;
+                    if p.contains("/keyval/") || crate::ceremony::escape_respellings(s).is_empty() {
+                        None
+                    } else {
+                        Some((p.clone(), s.to_string()))
+                    }
+                })
+                .collect();
+            if !escapable.is_empty() && r.chance(1, 5) {
+                let (ptr, old) = r.pick(&escapable).clone();
+                let alts = crate::ceremony::escape_respellings(&old);
+                t.root.doc.ops.push(DocOp::Set { ptr, value: json!(r.pick(&alts).clone()) });
+                t.labels.push(fname(f).to_string());
+                t.labels.push("ESCAPE-RESPELLING".into());
+                return true;
+            }
             // a MATCH rule: splice an empty source / destination prefix in (parses to another rule)
             let match_rules: Vec<String> = ls.iter().filter(|(p, v)| p.ends_with("/0") && v.as_str() == Some("MATCH")).map(|(p, _)| p[..p.len() - 2].to_string()).collect();
             if !match_rules.is_empty() && r.chance(1, 6) {
